@@ -19,6 +19,7 @@ func checkC20(c *Check, a *Anchors) {
 	c20DecisionTable(c, a)
 	c20HTTPRefused(c, a)
 	c20FetchHonoursContext(c, a)
+	nodeIdentityImmutable(c, a)
 	fieldNotClobberedOnError(c, a, "field-not-clobbered-on-error") // the cache fallback re-uses the node whose fetch just failed
 }
 
